@@ -178,7 +178,7 @@ class SynthDesc():
                     desc.metadata = dict()
                 desc.metadata['reconstructed'] = True  # Was 'shouldNotSend'.
                 desc.metadata['load_path'] = str(path)
-                desc.sdef.metadata = desc.metadata
+                desc.sdef._metadata = desc.metadata  # Read only property.
         return ret
 
     def _read_synthdef(self, stream, keep_def=False):  # TODO
